@@ -11,6 +11,9 @@ import PyodaProofs.C01Lemmas
 import PyodaProofs.C01Instances
 import PyodaProofs.C01
 import PyodaProofs.C01Islamic
+import PyodaProofs.C01WfCheck
+import PyodaProofs.C01PersianSimple
+import PyodaProofs.C01PersianArithmetic
 
 namespace Pyoda.C02
 open Pyoda Pyoda.Calendar Pyoda.Calendar.Reference Pyoda.C01
@@ -231,6 +234,109 @@ theorem islamic_monthLength_matches (bits p : Nat) (hp : IslPattern bits p) (y m
     by_cases h12 : m = 12 ∧ islamicLeap p y = true
     · rw [if_pos h12, if_pos h12]
     · rw [if_neg h12, if_neg h12, if_pos (by omega)]
+
+/-! ## evaluated agreement (Hebrew civil/scriptural, Persian simple, Persian arithmetic from 475)
+
+  `refAgree n` (PyodaModel/Calendar/RefAgree.lean) compares model and reference year by year and month by month; the
+  check evaluates it on the compiled driver.  `refAgree_sound` states what that evaluation implies. -/
+
+/-- reference day numbers are affine in the day of the month -/
+def RefLinear (r : Ref) : Prop := ∀ y m d, r.fixed y m d = r.fixed y m 1 + (d - 1)
+
+theorem refLinear_hebrew (y m d : Int) : fixedFromHebrew y m d = fixedFromHebrew y m 1 + (d - 1) := by
+  unfold fixedFromHebrew; omega
+
+theorem refLinear_persianSimple (y m d : Int) :
+    fixedFromPersianSimple y m d = fixedFromPersianSimple y m 1 + (d - 1) := by
+  unfold fixedFromPersianSimple; omega
+
+theorem refLinear_persianArithmetic (y m d : Int) :
+    fixedFromPersianArithmetic y m d = fixedFromPersianArithmetic y m 1 + (d - 1) := by
+  unfold fixedFromPersianArithmetic; simp only []; omega
+
+theorem refAgreeWith_sound (c : Calc) (r : Ref) (hwf : WF c) (hl : RefLinear r) (h : refAgreeWith c r = true)
+    (y m d : Int) (hv : validate c y m d = .ok ()) (hy : r.fromYear ≤ y) :
+    daysOfYmd c y m d = .ok (r.days y m d) ∧ c.leap y = r.leap y ∧ c.months y = r.months y ∧
+    c.dim y m = r.monthLength y m ∧ c.len y = r.yearLength y := by
+  obtain ⟨hy1, hy2, hm1, hm2, _, _⟩ := validate_inv hv
+  simp only [refAgreeWith, Bool.and_eq_true, decide_eq_true_eq] at h
+  obtain ⟨hall, hlast⟩ := h
+  have hfrom : ∀ z, y ≤ z → agreeFrom c r ≤ z := by
+    intro z hz; unfold agreeFrom; split <;> omega
+  have hyr := allInts_spec _ _ _ hall y (hfrom y (by omega)) hy2
+  simp only [refAgreeYear, Bool.and_eq_true, decide_eq_true_eq, beq_iff_eq] at hyr
+  obtain ⟨⟨⟨hstart, hleap⟩, hmonths⟩, hms⟩ := hyr
+  have hmm := allInts_spec _ _ _ hms m hm1 hm2
+  simp only [Bool.and_eq_true, decide_eq_true_eq] at hmm
+  refine ⟨?_, hleap, hmonths, hmm.1, ?_⟩
+  · unfold daysOfYmd
+    rw [hv]
+    show daysOfYmdRaw c y m d = _
+    rw [daysOfYmdRaw_eq hwf hy1 hy2]
+    have := hl y m d
+    unfold Ref.days at hmm ⊢
+    congr 1; omega
+  · have hr := (hwf.recur y hy1 hy2).1
+    have hnext : c.start (y + 1) = r.yearStart (y + 1) := by
+      by_cases hlt : y < c.maxYear
+      · have := allInts_spec _ _ _ hall (y + 1) (hfrom (y + 1) (by omega)) (by omega)
+        simp only [refAgreeYear, Bool.and_eq_true, decide_eq_true_eq] at this
+        exact this.1.1.1
+      · have e : y = c.maxYear := by omega
+        rw [e]; exact hlast
+    unfold Ref.yearLength; omega
+
+/-- what one evaluation of `refAgree n` implies, given well-formedness of the calendar -/
+theorem refAgree_sound (n : Nat) (c : Calc) (r : Ref) (hc : calcOf n = some c) (hr : refOf n = some r)
+    (hwf : WF c) (hl : RefLinear r) (h : refAgree n = true)
+    (y m d : Int) (hv : validate c y m d = .ok ()) (hy : r.fromYear ≤ y) :
+    daysOfYmd c y m d = .ok (r.days y m d) ∧ c.leap y = r.leap y ∧ c.months y = r.months y ∧
+    c.dim y m = r.monthLength y m ∧ c.len y = r.yearLength y := by
+  unfold refAgree at h
+  rw [hc, hr] at h
+  exact refAgreeWith_sound c r hwf hl h y m d hv hy
+
+/-- Persian simple (33-year rule, year 1 = 21 March 622 proleptic Gregorian): `WF` is proved symbolically, agreement
+    with the reference is the evaluated hypothesis -/
+theorem persianSimple_matches_reference (h : refAgree 6 = true) (y m d : Int)
+    (hv : validate Pers.simple y m d = .ok ()) :
+    daysOfYmd Pers.simple y m d = .ok (fixedFromPersianSimple y m d - 719163) ∧
+    Pers.leapSimple y = persianSimpleLeap y := by
+  have hr : refOf 6 = some persianSimpleRef := rfl
+  have hy := (validate_inv hv).1
+  have := refAgree_sound 6 Pers.simple _ rfl hr persianSimple_wf refLinear_persianSimple h y m d hv hy
+  exact ⟨this.1, this.2.1⟩
+
+/-- Persian arithmetic (Birashk's 2820-year cycle) from year 475, the anchor of the cycle -/
+theorem persianArithmetic_matches_reference (h : refAgree 7 = true) (y m d : Int)
+    (hv : validate Pers.arithmetic y m d = .ok ()) (hy : 475 ≤ y) :
+    daysOfYmd Pers.arithmetic y m d = .ok (fixedFromPersianArithmetic y m d - 719163) ∧
+    Pers.leapArithmetic y = persianArithmeticLeap y := by
+  have hr : refOf 7 = some persianArithmeticRef := rfl
+  have := refAgree_sound 7 Pers.arithmetic _ rfl hr persianArithmetic_wf refLinear_persianArithmetic h y m d hv hy
+  exact ⟨this.1, this.2.1⟩
+
+/-- Hebrew, scriptural month numbering: both hypotheses are evaluated (`cal.wf 5`, `ref.agree 5`) -/
+theorem hebrewScriptural_matches_reference (hw : wfCheck (Heb.cal true) = true) (h : refAgree 5 = true) (y m d : Int)
+    (hv : validate (Heb.cal true) y m d = .ok ()) :
+    daysOfYmd (Heb.cal true) y m d = .ok (fixedFromHebrew y m d - 719163) ∧ Heb.isLeap y = hebrewLeap y ∧
+    (Heb.cal true).dim y m = lastDayOfHebrewMonth y m := by
+  have hr : refOf 5 = some hebrewScripturalRef := rfl
+  have hy := (validate_inv hv).1
+  have := refAgree_sound 5 (Heb.cal true) _ rfl hr (wfCheck_sound _ hw) refLinear_hebrew h y m d hv hy
+  exact ⟨this.1, this.2.1, this.2.2.2.1⟩
+
+/-- Hebrew, civil month numbering (months counted from Tishri) -/
+theorem hebrewCivil_matches_reference (hw : wfCheck (Heb.cal false) = true) (h : refAgree 4 = true) (y m d : Int)
+    (hv : validate (Heb.cal false) y m d = .ok ()) :
+    daysOfYmd (Heb.cal false) y m d = .ok (fixedFromHebrew y (hebrewCivilToScriptural y m) d - 719163) ∧
+    Heb.isLeap y = hebrewLeap y ∧
+    (Heb.cal false).dim y m = lastDayOfHebrewMonth y (hebrewCivilToScriptural y m) := by
+  have hr : refOf 4 = some hebrewCivilRef := rfl
+  have hy := (validate_inv hv).1
+  have hl : RefLinear hebrewCivilRef := fun y m d => refLinear_hebrew y _ d
+  have := refAgree_sound 4 (Heb.cal false) _ rfl hr (wfCheck_sound _ hw) hl h y m d hv hy
+  exact ⟨this.1, this.2.1, this.2.2.2.1⟩
 
 /-! non-vacuity -/
 example : daysOfYmd Greg.cal 2024 2 29 = .ok (fixedFromGregorian 2024 2 29 - 719163) ∧
